@@ -44,12 +44,19 @@ def lengths(tier):
     return sorted(x for x in ls if 1 <= x <= 32768)
 
 
+_SHARED = {}
+
+
 def converse(rng, n, wd, idx):
     import mysensors
     from mysensors.ota import load_fw
+    # every third conversation re-uses the previous gateway AND firmware id: a new image under the same (type, version)
+    reuse = _SHARED.get("gw") is not None and idx % 3 != 0
     img = bytes(rng.randrange(256) for _ in range(n)) if rng.random() < 0.8 else bytes([rng.choice([0, 255])]) * n
     ft = rng.choice([0, 1, 10, 255, 256, 65535, rng.randrange(65536)])
     fv = rng.choice([0, 1, 2, 65535, rng.randrange(65536)])
+    if reuse:
+        ft, fv = _SHARED["fw"]
     path = os.path.join(wd, f"img{idx}.hex")
     start = rng.choice([0, 0, 0x100, 0x1000]) if n < 20000 else 0
     ihex.write(path, img, reclen=rng.choice([16, 32, 8, 255]), start=start)
@@ -59,11 +66,15 @@ def converse(rng, n, wd, idx):
         loaded = load_fw(path)
         if loaded is not None:
             rec["hasloaded"], rec["loaded"] = True, list(loaded)
-        ver = rng.choice(["1.4", "1.5", "2.0", "2.1", "2.2"])
-        gw = mysensors.BaseSyncGateway(RecTransport(), protocol_version=ver)
-        nodes = rng.sample([1, 2, 7, 200, 254], rng.randint(1, 3))
-        for nd in nodes:
-            gw.logic(f"{nd};255;0;0;17;{ver}\n")
+        if reuse:
+            gw, nodes = _SHARED["gw"], _SHARED["nodes"]
+        else:
+            ver = rng.choice(["1.4", "1.5", "2.0", "2.1", "2.2"])
+            gw = mysensors.BaseSyncGateway(RecTransport(), protocol_version=ver)
+            nodes = rng.sample([1, 2, 7, 200, 254], rng.randint(1, 3))
+            for nd in nodes:
+                gw.logic(f"{nd};255;0;0;17;{ver}\n")
+            _SHARED.update(gw=gw, nodes=nodes, fw=(ft, fv))
         gw.update_fw(nodes if len(nodes) > 1 else nodes[0], ft, fv, path)
         for nd in nodes:
             r = gw.logic(f"{nd};255;4;0;0;{hexwords(ft, rng.randrange(65536), 7, 8, 9)}\n")
